@@ -530,7 +530,36 @@ WMPT = dict(
                  "SaveRoot/reload are only issued on a clean (committed) trie; exactly one commit between checkpoint and rollback"],
 )
 
-FAMILIES = {"C01": MPT, "C02": MPT, "C14": MPT, "C06": SC, "C07": SC, "C08": C08, "C03": ROUNDS, "C04": ROUNDS, "C05": ROUNDS, "C17": SYNC, "C16": C16, "C09": WMPT, "C11": WMPT, "C13": WMPT}
+# ----------------------------------------------------------------------------- family: proof (C10)
+
+def _proof_ops(events):
+    e = events[0]
+    return dict(note="re-run of a single proof event is not supported; see the plan", event=e)
+
+
+PROOF = dict(
+    name="proof", component="proof", trace_module="WMPTProofTrace", trace_cfg="WMPTProofTrace.cfg",
+    design={"quick": [("WMPTProof_MC", "WMPTProof_soundq.cfg")], "thorough": [("WMPTProof_MC", "WMPTProof_sound.cfg")]},
+    mutants={"quick": [("WMPTProof_MC", "WMPTProof_reweight.cfg", "Sound")],
+             "thorough": [("WMPTProof_MC", "WMPTProof_reweight.cfg", "Sound")]},
+    gen={"quick": [dict(module="WMPTProof_MC", cfg="WMPTProof_genq.cfg", workers=12, timeout=1200)],
+         "thorough": [dict(module="WMPTProof_MC", cfg="WMPTProof_gen3.cfg", workers=12, timeout=3000)]},
+    exec_args=lambda tier, seed: (["-n", 300] if tier == "quick" else ["-n", 20000]),
+    flags={"C10": {"honest", "forged", "panic"}},
+    distinct=lambda s: s.get("distinct_outcome_classes", 0),
+    rule="proofs = (a) every (trie, block, sequence of <=2 structured edits: re-weight siblings keeping the sum, swap sibling slots, "
+         "change a claimed weight, change the value, drop/duplicate an element, splice in the tail of another block's proof) explored "
+         "by TLC in WMPTProof.tla, applied by structural index to the real honest proof bytes and submitted to the real verifier; "
+         "(b) honest proofs of random tries of 3-42 keys and byte-level tampering (bit flips, truncation, other block, other trie); "
+         "distinct_nontrivial = distinct (trie size, block, edit kinds, outcome) classes",
+    summary_keys=["rejected", "verified_to_trusted_root", "verified_to_other_root", "model_forged_plans", "panics", "go_histories"],
+    ops_of=_proof_ops,
+    assumptions=["proof bytes are decoded/re-encoded by the harness bridge (independent CBOR layout implementation)",
+                 "verification always uses a fresh verifier trie",
+                 "only 'trusted root together with a wrong value' is a violation; rejecting or another root is fine"],
+)
+
+FAMILIES = {"C01": MPT, "C02": MPT, "C14": MPT, "C06": SC, "C07": SC, "C08": C08, "C03": ROUNDS, "C04": ROUNDS, "C05": ROUNDS, "C17": SYNC, "C16": C16, "C09": WMPT, "C11": WMPT, "C13": WMPT, "C10": PROOF}
 PROPS = dict(FAMILIES)
 
 
